@@ -804,6 +804,10 @@ func (w *worker) runPath(item workItem) (res PathResult) {
 			case "infeasible", "assert-all-fail", "assume-false":
 			case "deadlock":
 				in.report("deadlock", "deadlock", "", "all goroutines blocked", in.model)
+			case "step-limit", "depth-limit", "goroutine-limit":
+				// the code under test does not terminate within the budget on this path
+				in.report("hang", "nontermination", "", r.reason, in.model)
+				in.incomplete = append(in.incomplete, "path aborted: "+r.reason)
 			default:
 				in.incomplete = append(in.incomplete, "path aborted: "+r.reason)
 			}
